@@ -90,4 +90,82 @@ U_C01_singles == TLCEval(SinglesOf(R2))
 U_C01_triples == TLCEval(TriplesOf(Core12))
 U_C01_simple  == TLCEval(SimplePairsOf(R1))
 Syms_C01 == << SymA, SymE2, SymS4 >>      \* atom 3 is in no leaf: never matched
+\* ---- C04 / C05: lookaheads --------------------------------------------------------------
+\* atoms: 1 = a (1 byte), 2 = U+00E9 (2 bytes, "b"), 3 = U+1F600 (4 bytes, "c")
+Syms_C04 == << SymA, SymE2, SymS4 >>
+A1 == Cls(<<1>>)
+A2 == Cls(<<2>>)
+A3 == Cls(<<3>>)
+A12 == Cls(<<1, 2>>)
+PatPool == << A1, A2, Cat(A1, A2), Plus(A1), Plus(A12), Cat(Star(A1), A2), Cat(A1, A3), A3,
+              Cat(Cat(A1, A2), A3), Alt(A1, Cat(A1, A2)), A12, Alt(Cat(A1, A12), A12) >>
+\* lookahead patterns that cannot match the empty string
+LaPool == << A3, Cat(A1, A2), A12, Plus(A1), Alt(A1, Cat(A2, A3)) >>
+NLa == 2 * Len(LaPool) + 1
+LaOpt(j) == IF j = 1 THEN NoLa
+            ELSE IF j <= Len(LaPool) + 1 THEN PosLa(LaPool[j - 1])
+            ELSE NegLa(LaPool[j - 1 - Len(LaPool)])
+\* decorated patterns: pattern x lookahead option (token type filled in later)
+NDeco == Len(PatPool) * NLa
+DecoRe(k) == PatPool[((k - 1) \div NLa) + 1]
+DecoLa(k) == LaOpt(((k - 1) % NLa) + 1)
+U_C04_singles == [k \in 1..NDeco |-> OneMode(<< PatLa(DecoRe(k), 5, DecoLa(k)) >>)]
+U_C04_pairs == [k \in 1..(NDeco * NDeco) |->
+                  OneMode(<< PatLa(DecoRe(((k - 1) \div NDeco) + 1), 7, DecoLa(((k - 1) \div NDeco) + 1)),
+                             PatLa(DecoRe(((k - 1) % NDeco) + 1), 3, DecoLa(((k - 1) % NDeco) + 1)) >>)]
+\* pairs in which at least one pattern has a lookahead (C05)
+HasLa(cfg) == \E p \in DOMAIN cfg.modes[1].pats : cfg.modes[1].pats[p].la.kind # "none"
+U_C04 == TLCEval(U_C04_singles \o U_C04_pairs)
+U_C05 == TLCEval(SelectSeq(U_C04_pairs, HasLa))
+
+\* ---- C06 / C11 / C12: mode graphs ---------------------------------------------------------
+\* atoms: 1 = a, 2 = b, 3 = c, 4 = x (matched by nothing)
+Syms_C06 == << SymA, SymB, SymC, SymX >>
+\* mode m has its own single-character (or two-character) patterns so that the mode in force shows
+\* in the tokens; token types 1..3 are shared between the modes
+ModePats(m) ==
+  CASE m = 0 -> << Pat(A1, 1), Pat(A2, 2), Pat(A3, 3) >>
+    [] m = 1 -> << Pat(A1, 2), Pat(Cat(A1, A2), 3), Pat(A2, 1) >>
+    [] m = 2 -> << Pat(A3, 1), Pat(A2, 2), Pat(Plus(A1), 3) >>
+\* the k-th transition list (k >= 0) for nm modes: digit j of k in base nm+1 is 0 for "no
+\* transition on type j" and t+1 for "type j -> mode t"; lists are sorted by token type
+TransOf(nm, k) ==
+  LET d(j) == (k \div Pow(nm + 1, j - 1)) % (nm + 1)
+      all == << <<1, d(1) - 1>>, <<2, d(2) - 1>>, <<3, d(3) - 1>> >>
+  IN  SelectSeq(all, LAMBDA t : t[2] >= 0)
+NTrans(nm) == Pow(nm + 1, 3)
+ModeName(m) == CASE m = 0 -> "INITIAL" [] m = 1 -> "M one" [] m = 2 -> "M2"
+Graph2(k) == [modes |-> << Mode(ModeName(0), ModePats(0), TransOf(2, k % NTrans(2))),
+                           Mode(ModeName(1), ModePats(1), TransOf(2, k \div NTrans(2))) >>]
+Graph3(k) == [modes |-> << Mode(ModeName(0), ModePats(0), TransOf(3, k % NTrans(3))),
+                           Mode(ModeName(1), ModePats(1), TransOf(3, (k \div NTrans(3)) % NTrans(3))),
+                           Mode(ModeName(2), ModePats(2), TransOf(3, k \div (NTrans(3) * NTrans(3)))) >>]
+Graph1(k) == [modes |-> << Mode(ModeName(0), ModePats(0), TransOf(1, k)) >>]
+U_C06_1 == [k \in 1..NTrans(1) |-> Graph1(k - 1)]
+U_C06_2 == [k \in 1..(NTrans(2) * NTrans(2)) |-> Graph2(k - 1)]
+\* three modes: every 61st graph (a stride coprime to the digit structure)
+U_C06_3 == [k \in 1..((NTrans(3) * NTrans(3) * NTrans(3)) \div 61) |-> Graph3((k - 1) * 61)]
+U_C06 == TLCEval(U_C06_1 \o U_C06_2 \o U_C06_3)
+
+\* ---- C09: line and column ----------------------------------------------------------------
+\* atoms: 1 = x (1 byte), 2 = U+00E9 (2 bytes), 3 = newline, 4 = a (never matched)
+Syms_C09 == << SymX, SymE2, SymNL, SymA >>
+C09Pats == << Pat(Plus(A1), 1), Pat(A2, 2), Pat(A3, 0), Pat(Cat(A1, A3), 4), Pat(Plus(A3), 6) >>
+\* all non-empty subsets of the five patterns, in the listed order
+SubSeqOf(S, k) == SelectSeq([j \in DOMAIN S |-> <<j, S[j]>>], LAMBDA e : (k \div Pow(2, e[1] - 1)) % 2 = 1)
+U_C09 == TLCEval([k \in 1..(Pow(2, Len(C09Pats)) - 1) |->
+                    OneMode([j \in DOMAIN SubSeqOf(C09Pats, k) |-> SubSeqOf(C09Pats, k)[j][2]])])
+
+\* ---- C10: a core of configurations with lookaheads and modes -----------------------------
+U_C10 == TLCEval(
+  << OneMode(<< Pat(Plus(A1), 1), Pat(A2, 2) >>),
+     OneMode(<< Pat(Cat(A1, A2), 1), Pat(A1, 2), Pat(Plus(A12), 3) >>),
+     OneMode(<< PatLa(A1, 1, PosLa(A2)), Pat(A2, 2), Pat(A3, 3) >>),
+     OneMode(<< PatLa(Plus(A1), 1, NegLa(A2)), Pat(A12, 2) >>),
+     OneMode(<< PatLa(Cat(A1, A2), 4, PosLa(A3)), Pat(A1, 9), PatLa(A2, 0, NegLa(Plus(A1))) >>),
+     OneMode(<< Pat(Alt(Eps, A1), 1), Pat(Star(A2), 2) >>),
+     Graph2(5 + 27 * 11), Graph2(14 + 27 * 3), Graph2(26 + 27 * 26), Graph3(7 * 61 + 3), Graph3(1234 * 61),
+     [modes |-> << Mode("A", << PatLa(A1, 1, PosLa(A2)), Pat(A2, 2), Pat(A3, 3) >>, << <<2, 1>> >>),
+                   Mode("B", << Pat(Plus(A1), 5), PatLa(A2, 2, NegLa(A3)), Pat(A3, 3) >>, << <<3, 0>> >>) >>]
+  >>)
 =============================================================================
